@@ -71,6 +71,16 @@ Fixpoint dedup (l : list nat) : list nat :=
   | x :: t => x :: filter (fun y => negb (y =? x)) (dedup t)
   end.
 
+(* HashedIterable.__iter__ (domain cache): a value whose id is cached already is not yielded again; all dead
+   references are the one object None *)
+Definition oeqb (a b : option obj) : bool :=
+  match a, b with Some x, Some y => x =? y | None, None => true | _, _ => false end.
+Fixpoint dedupo (l : list (option obj)) : list (option obj) :=
+  match l with
+  | [] => []
+  | x :: t => x :: filter (fun y => negb (oeqb y x)) (dedupo t)
+  end.
+
 (* ------------------------------------------------------------------ SymbolGraph methods *)
 Definition add_node (r : reg) (w : wrapper) : reg :=
   R (nodes r ++ [w]) (set (w_pyid w) w (by_id r)) (wl r ++ [w]) (edges r) (rel_index r).
@@ -167,7 +177,7 @@ Section Hier.
     | QueryE T =>
         let r := sweep (live s) (g s) in
         let res := instances (live s) r T in
-        (ST (live s) (user s) r (vars s ++ [(T, VCached (dedup (somes res)))]) (next s), OInst res)
+        (ST (live s) (user s) r (vars s ++ [(T, VCached (dedup (somes res)))]) (next s), OInst (dedupo res))
     | DeclV T =>
         (* let(T, None) only creates the generator over the registry; nothing is read, nothing is held *)
         (ST (live s) (user s) (g s) (vars s ++ [(T, VPending)]) (next s), ONone)
@@ -177,7 +187,7 @@ Section Hier.
         | Some (T, VPending) =>
             (* first evaluation: the registry is enumerated NOW; what was seen is cached *)
             let res := instances (live s) r T in
-            (ST (live s) (user s) r (set_nth k (T, VCached (dedup (somes res))) (vars s)) (next s), OInst res)
+            (ST (live s) (user s) r (set_nth k (T, VCached (dedup (somes res))) (vars s)) (next s), OInst (dedupo res))
         | Some (T, VCached l) => (ST (live s) (user s) r (vars s) (next s), OInst (map Some l))
         | Some (T, VStale) => (s, OErr)
         | None => (s, OErr)
